@@ -16,6 +16,7 @@ mod postprocess;
 mod regexdrive;
 mod roundtrip;
 mod run;
+mod statics;
 
 fn main() {
     let args: Vec<String> = std::env::args().collect();
@@ -25,6 +26,7 @@ fn main() {
     }
     let code = match args[1].as_str() {
         "run" => run::main(&args[2..]),
+        "statics" => statics::main(&args[2..]),
         "inventory" => inventory::main(&args[2..]),
         "deps" => depsdrive::main(&args[2..]),
         "postprocess" => postprocess::main(&args[2..]),
